@@ -18,14 +18,14 @@ theorem parseCells_devs (ar : Arith) (o : Opts) (ds W : List Desc) (n : Nat) :
     have ih := parseCells_devs ar o ds W n dvs (fun x hx => h x (List.mem_cons_of_mem _ hx))
     simp only [List.map_cons, parseCells, h1, ih]
 
-theorem parseCells_fields (o : Opts) (hdeg : o.degrees = false) (ds : List Desc) (hds : NoSubNames ds) (m : Message)
+theorem parseCells_fields (o : Opts) (ds : List Desc) (hds : NoSubNames ds) (m : Message)
     (devCells : List Cell) (devs : List DevField) (hdev : parseCells Arith.so ds m.num devCells = .ok ([], devs)) :
     ∀ fs : List Field, (∀ f ∈ fs, FieldScope m f) →
       parseCells Arith.so ds m.num (fs.map (writeField o m) ++ devCells) = .ok (fs.filterMap (slotOf o m), devs)
   | [], _ => by simpa using hdev
   | f :: fs, h => by
-    have h1 := cell_rt o hdeg ds hds m f (h f (List.mem_cons_self ..))
-    have ih := parseCells_fields o hdeg ds hds m devCells devs hdev fs (fun x hx => h x (List.mem_cons_of_mem _ hx))
+    have h1 := cell_rt o ds hds m f (h f (List.mem_cons_self ..))
+    have ih := parseCells_fields o ds hds m devCells devs hdev fs (fun x hx => h x (List.mem_cons_of_mem _ hx))
     simp only [List.map_cons, List.cons_append, parseCells, h1, ih]
     cases hs : slotOf o m f with
     | none => simp [parsedOf, List.filterMap_cons, hs]
@@ -291,7 +291,7 @@ theorem mapMatches_fval {fields : List Field} {mp : Nat × Int} (h : mapMatches 
 
 /-- the value cell of a field written under a sub-field's name is ONE piece, which the main field's base type, scale,
 offset and units read back as the value -/
-theorem subst_atom (o : Opts) (hdeg : o.degrees = false) {pm : PMesg} {p : PField} (hpm : pm ∈ profile) (hlow : pm.num < mfgRangeMin)
+theorem subst_atom0 (o : Opts) (hdeg : o.degrees = false) {pm : PMesg} {p : PField} (hpm : pm ∈ profile) (hlow : pm.num < mfgRangeMin)
     (hpf : p ∈ pm.fields) (v : Value) (hv : valueOK p.bt p.isBool v = true) (harr : (elemsOf v).2 = false)
     (hnorm : csvNorm v = v) :
     ∃ a, fieldAtoms o (txt p.units) p.scale p.offset v = [a] ∧
@@ -345,5 +345,15 @@ theorem subst_atom (o : Opts) (hdeg : o.degrees = false) {pm : PMesg} {p : PFiel
     · simp [fieldAtoms, hdeg, hraw', hscl, hss, cellPieces]
     · simp only at har
       simp only [parseAtom, hdg, Bool.false_eq_true, ↓reduceIte, hb, beq_self_eq_true, Bool.and_self, har]
+
+/-- … with or without the degrees option: a field with sub-fields is not in semicircles -/
+theorem subst_atom (o : Opts) {pm : PMesg} {p : PField} (hpm : pm ∈ profile) (hlow : pm.num < mfgRangeMin)
+    (hpf : p ∈ pm.fields) (hsubs : p.subs ≠ []) (v : Value) (hv : valueOK p.bt p.isBool v = true) (harr : (elemsOf v).2 = false)
+    (hnorm : csvNorm v = v) :
+    ∃ a, fieldAtoms o (txt p.units) p.scale p.offset v = [a] ∧
+      parseAtom Arith.so a p.bt p.isBool p.scale p.offset (txt p.units) = .ok v := by
+  have hu : txt p.units ≠ semicirclesTxt := fun h => hsubs (semi_facts hpm hpf h).2.2.2.1
+  rw [fieldAtoms_noDeg o _ _ _ _ hu]
+  exact subst_atom0 (noDeg o) rfl hpm hlow hpf v hv harr hnorm
 
 end Fit.Csv
